@@ -1,6 +1,8 @@
 import ChythonModel.Gen.PeriodicTable
 import ChythonModel.Spec.Iupac
 import ChythonModel.Model.C18Atom
+import ChythonModel.Proofs.C18History
+import ChythonModel.Proofs.C18Matcher
 /-!
 # C18 — periodic table data are complete and mutually consistent
 
@@ -16,7 +18,7 @@ proved theorem is `mdl_in_distribution_partial`, which excludes exactly those sy
 full statement is proved with a concrete witness in `Findings/C18.lean`.
 -/
 namespace ChythonModel.Props.C18
-open ChythonModel.Gen ChythonModel.Spec ChythonModel.Model.C18
+open ChythonModel.Gen ChythonModel.Spec ChythonModel.Model.C18 ChythonModel.Proofs.C18
 
 /-! ## lookups as the code performs them: `fromSymbol`, `fromNumber`, `keys` are the definitions of `Model/C18Atom.lean`
 (the ones `drv_c18` runs against the real lookups on every check) -/
@@ -128,6 +130,181 @@ theorem matcher_fields_representable :
     (∀ c ∈ [(-4 : Int), -3, -2, -1, 0, 1, 2, 3, 4], 35 ≤ c + 39 ∧ c + 39 ≤ 43) ∧
     (∀ r ∈ periodicTable, if r.z ≤ 56 then 1 ≤ 57 - r.z ∧ 57 - r.z ≤ 56
                           else 4 ≤ 120 - min r.z 116 ∧ 120 - min r.z 116 ≤ 63) := by decide +kernel
+
+
+/-! ## clause 2, continued: the tables are mutually consistent as *numbers*, and `atomic_mass` over the life of an atom object
+
+The definitions below (`new`, `step`, `run`, `massOf`, …) are those of `Model/C18Atom.lean`, which `drv_c18` executes against the
+real `Element` objects on every run (request `HIST`: walks through the whole isotope table of every element plus seeded random
+histories with rejected and wrong-typed assignments). -/
+
+/-- the tabulated mass of isotope `A` is within 0.25 u of `A` (the largest mass excess of any nuclide is ≈ 0.21 u): a digit typo
+    in a mass literal, or a mass filed under the wrong mass number, breaks this -/
+theorem isotope_mass_near_mass_number :
+    ∀ r ∈ periodicTable, ∀ p ∈ r.mass, p.1 * 1000000 ≤ p.2 + 250000 ∧ p.2 ≤ p.1 * 1000000 + 250000 := by decide +kernel
+
+theorem abundances_sum_ge_one : ∀ r ∈ periodicTable, 999900 ≤ (r.dist.map (·.2)).sum := by decide +kernel
+
+/-- no isotope is labelled 0 (a falsy label would read as "no isotope" in `if a.isotope:`) -/
+theorem isotope_keys_positive : ∀ r ∈ periodicTable, (keys r.dist).contains 0 = false := by decide +kernel
+
+/-- every state of the invariant (label `None` or tabulated, charge in range) has a mass -/
+theorem mass_of_state_computable :
+    ∀ r ∈ periodicTable, ∀ o : Obj, Inv r o → ∃ m, massOf r o = .ok m := by
+  intro r hr o hinv
+  have hm := mass_computable r hr
+  unfold massOf massIso
+  cases hi : o.isotope with
+  | none =>
+    exact naturalMass_ok r.mass r.dist (fun p hp => hm p.1 (List.mem_map.mpr ⟨p, hp, rfl⟩))
+  | some i =>
+    have hc := hinv.1 i hi
+    have hmem : i ∈ keys r.dist := by simpa using hc
+    have := hm i hmem
+    cases hl : r.mass.lookup i with
+    | none => simp [hl] at this
+    | some m => exact ⟨m * 1000000, by simp only [hl]⟩
+
+/-- **atomic mass is computable after every history**: whatever constructor arguments were accepted and whatever sequence of
+    assignments (accepted or rejected), reads, copies and rule lookups followed, `atomic_mass` returns a number, and that number
+    is the one the tables give for the label assigned last (`lastIso`) — nothing else of the history enters. -/
+theorem mass_after_every_history :
+    ∀ r ∈ periodicTable, ∀ (a b c : PyVal) (o : Obj) (ops : List Op), new r a b c = .ok o →
+      (∃ m, massOf r (runObj r o ops) = .ok m) ∧
+      massOf r (runObj r o ops) = massIso r (lastIso r o.isotope ops) := by
+  intro r hr a b c o ops hnew
+  refine ⟨mass_of_state_computable r hr _ (run_inv ops (new_inv hnew)), ?_⟩
+  unfold massOf
+  rw [run_isotope]
+
+/-- a rejected assignment leaves the object exactly as it was -/
+theorem rejected_assignment_keeps_object (r : ElemRow) (o : Obj) (op : Op) (e : Err)
+    (h : (step r o op).2 = .raised e) : (step r o op).1 = o := by
+  cases op with
+  | iso v =>
+    simp only [step] at h ⊢
+    cases hs : setIsotope r o v with
+    | error e' => rfl
+    | ok o' => rw [hs] at h; cases h
+  | charge v =>
+    simp only [step] at h ⊢
+    cases hs : setCharge o v with
+    | error e' => rfl
+    | ok o' => rw [hs] at h; cases h
+  | rad v =>
+    simp only [step] at h ⊢
+    cases hs : setRadical o v with
+    | error e' => rfl
+    | ok o' => rw [hs] at h; cases h
+  | read => rfl
+  | copy => rfl
+  | rules v => rfl
+
+/-- reading the mass, copying and looking up valence rules do not change the object -/
+theorem observations_keep_object (r : ElemRow) (o : Obj) (v : Nat) :
+    (step r o .read).1 = o ∧ (step r o .copy).1 = o ∧ (step r o (.rules v)).1 = o := ⟨rfl, rfl, rfl⟩
+
+def isoVal (o : Obj) : PyVal := match o.isotope with | none => .none | some i => .int i
+
+/-- every state a history can reach is the state a single constructor call builds: comparing a walked object with a freshly
+    constructed one (the oracle of the history check) loses nothing -/
+theorem reachable_state_is_constructible (r : ElemRow) (o : Obj) (h : Inv r o) :
+    new r (isoVal o) (.int o.charge) (.bool o.radical) = .ok o := by
+  obtain ⟨oi, oc, orad⟩ := o
+  obtain ⟨h1, h2, h3⟩ := h
+  have hc : ¬ (oc > 4 ∨ oc < -4) := by dsimp only at h2 h3; omega
+  cases oi with
+  | none => simp [new, isoVal, setIsotope, setCharge, setRadical, asInt?, hc]
+  | some i =>
+    have hmem : i ∈ keys r.dist := by simpa using h1 i rfl
+    simp [new, isoVal, setIsotope, setCharge, setRadical, asInt?, hc, hmem]
+
+example : ∃ r ∈ periodicTable, r.sym = "C" ∧
+    (run r ⟨none, 0, false⟩ [.read, .iso (.int 13), .read, .iso (.int 15), .iso .other, .charge (.int 5), .read]).2.length = 7 ∧
+    runObj r ⟨none, 0, false⟩ [.read, .iso (.int 13), .read, .iso (.int 15), .charge (.int 5)] = ⟨some 13, 0, false⟩ ∧
+    (massOf r ⟨some 13, 0, false⟩).toOption = some 13003355000000 := by decide +kernel
+
+/-! ## clause 3, continued: every state is found by its own query atom in BOTH matchers
+
+`accelFound` is the accelerated test on the four words the two encoders write (C09's `Bits.encAtom`, `Bits.encQAtom`,
+`Bits.rootOk` over the regenerated layout constants), `pyFound` the reference `QueryElement.__eq__` (C08's `pyEq`), `selects`
+the documented rule.  `drv_c18` (request `BITS`) compares word 3 of both real encoders and the outcome of both real matchers
+with these functions for every state of the grid and for the queries differing in one field. -/
+
+def charges : List Int := [-4, -3, -2, -1, 0, 1, 2, 3, 4]
+def hydrogens : List (Option Nat) := [none, some 0, some 1, some 2, some 3, some 4]
+/-- "no isotope" and every tabulated isotope of the row -/
+def labels (r : ElemRow) : List (Option Nat) := none :: (keys r.dist).map some
+/-- every tabulated isotope | none × charge −4…4 × radical flag -/
+def states (r : ElemRow) : List Obj :=
+  (labels r).flatMap fun i => charges.flatMap fun c => [⟨i, c, false⟩, ⟨i, c, true⟩]
+
+/-- Full statement of the clause: every state, with every hydrogen count 0…4/unknown and every neighbour / heteroatom count
+    0…14, is found by the query atom that describes it, by both matchers. -/
+def MatcherFindsEveryState : Prop :=
+  ∀ r ∈ periodicTable, ∀ o ∈ states r, ∀ h ∈ hydrogens, ∀ nb ≤ 14, ∀ het ≤ 14,
+    accelFound r o none o h nb het = some true ∧ pyFound r o none o h nb het = true
+
+/-- the reference matcher half of the full statement, for *all* counts (no table evaluation: a consequence of
+    `pyFound_eq_selects` and `isotope_keys_positive`) -/
+theorem reference_matcher_finds_every_state :
+    ∀ r ∈ periodicTable, ∀ o ∈ states r, ∀ (h : Option Nat) (nb het : Nat), pyFound r o none o h nb het = true := by
+  intro r hr o ho h nb het
+  rw [pyFound_eq_selects, selects_self]
+  intro h0
+  have hk := isotope_keys_positive r hr
+  simp only [states, labels, List.mem_flatMap, List.mem_cons, List.mem_map, List.not_mem_nil, or_false] at ho
+  obtain ⟨i, hi, c, _, hoc⟩ := ho
+  have hoi : o.isotope = i := by rcases hoc with rfl | rfl <;> rfl
+  rw [hoi] at h0
+  rcases hi with rfl | ⟨k, hk', rfl⟩
+  · cases h0
+  · injection h0 with h0
+    subst h0
+    have : (keys r.dist).contains 0 = true := by simpa using hk'
+    rw [hk] at this
+    cases this
+
+/-- the accelerated half on the complete isotope × charge × radical grid of every element (kernel evaluation of both encoders
+    and the mask test; hydrogens 0, no neighbours) -/
+theorem accelerated_finds_own_state_grid :
+    (periodicTable.all fun r => (states r).all fun o => accelFound r o none o (some 0) 0 0 == some true) = true := by
+  decide +kernel
+
+/-- proved part of `MatcherFindsEveryState`: all elements × all tabulated isotopes | none × charges −4…4 × radical flag (the
+    quantifier of the property), at hydrogens = 0, neighbours = heteroatoms = 0.  The hydrogen / neighbour / heteroatom fields
+    are covered on the unlabelled neutral state of every element by `matcher_count_fields`; what is missing for the full
+    statement is the product of the two (the fields occupy disjoint bit ranges, which is not proved here). -/
+theorem matcher_finds_every_state_partial :
+    ∀ r ∈ periodicTable, ∀ o ∈ states r,
+      accelFound r o none o (some 0) 0 0 = some true ∧ pyFound r o none o (some 0) 0 0 = true := by
+  intro r hr o ho
+  refine ⟨?_, reference_matcher_finds_every_state r hr o ho _ _ _⟩
+  have := accelerated_finds_own_state_grid
+  rw [List.all_eq_true] at this
+  have := this r hr
+  rw [List.all_eq_true] at this
+  simpa using this o ho
+
+/-- hydrogen counts 0…4/unknown, and neighbour = heteroatom counts 0…14, on the unlabelled neutral atom of every element -/
+theorem matcher_count_fields :
+    (periodicTable.all fun r =>
+      (hydrogens.all fun h => accelFound r ⟨none, 0, false⟩ none ⟨none, 0, false⟩ h 0 0 == some true) &&
+      ((List.range 15).all fun k => accelFound r ⟨none, 0, false⟩ none ⟨none, 0, false⟩ (some 0) k k == some true)) = true := by
+  decide +kernel
+
+/-- one field changed: the accelerated matcher answers what the documentation says (and so does the reference matcher, by
+    `pyFound_eq_selects`) for every pair of labels of an element, and for the radical flag against the same / no label -/
+theorem matcher_isotope_radical_cross :
+    (periodicTable.all fun r => (labels r).all fun i =>
+      ((labels r).all fun j => accelFound r ⟨j, 0, false⟩ none ⟨i, 0, false⟩ (some 0) 0 0 == some (selects ⟨j, 0, false⟩ none ⟨i, 0, false⟩ (some 0))) &&
+      ([false, true].all fun ro => [false, true].all fun rq => [i, none].all fun j =>
+        accelFound r ⟨j, 0, rq⟩ none ⟨i, 0, ro⟩ (some 0) 0 0 == some (selects ⟨j, 0, rq⟩ none ⟨i, 0, ro⟩ (some 0)))) = true := by
+  decide +kernel
+
+example : ∃ r ∈ periodicTable, r.sym = "C" ∧ (⟨some 13, -1, true⟩ : Obj) ∈ states r ∧
+    accelFound r ⟨some 13, -1, true⟩ none ⟨some 13, -1, true⟩ (some 0) 0 0 = some true ∧
+    accelFound r ⟨some 13, -1, false⟩ none ⟨some 13, -1, true⟩ (some 0) 0 0 = some false := by decide +kernel
 
 /-! ## clause 4: valence tables compile, variants exist -/
 
